@@ -761,7 +761,7 @@ void Engine<Policy>::op(const std::vector<std::string>& tok) {
         type_id id = toid(tok.at(2));
         rec.info = new (class_storage[used_class_infos_++]) detail::class_info();
         rec.info->type = make_id(id);
-        rec.info->type_resolved = false;
+        clear_type_resolved(*rec.info);
         rec.info->is_abstract = tol(tok.at(3)) != 0;
         rec.info->static_vptr = cell_for(id);
         for (std::size_t i = 4; i < tok.size(); ++i) {
